@@ -251,8 +251,15 @@ class DBFSStore(Store):
                 meta = None
             full_commit = self._commit_type == CommitType.FULL
             if meta is not None:
-                redir = json.loads(meta)
-                redir_key = redir["redirection_key"]
+                try:
+                    redir = json.loads(meta)
+                except ValueError as e:
+                    # A record that was cut short (an interrupted write) is no record: it is written again
+                    _logger.debug(
+                        f"Unreadable redirection {redir_path}: {_pprint_exception(e)}"
+                    )
+                    redir = {}
+                redir_key = redir.get("redirection_key")
                 # A record written by a links-only commit (or before copies were recorded) does not vouch for the copy
                 redir_copied = bool(redir.get("copied", False))
             else:
